@@ -8,9 +8,21 @@ PROP = dict(
     assumptions=['positions are well-formed (produced by Move / FromSquares)'],
 )
 MANIFEST = dict(
-    text="Coq theorems: the bitboard flood fill computes exactly the orthogonal connectivity classes (groups_spec) and the engine's "
-         "two-opposite-edge-masks test on them holds iff an orthogonally connected edge-to-edge path of road squares exists (road_bits_iff), "
-         "for every size 3..8 and every set of squares. The model of GameOver/WinDetails/ResultFromGame is run against the implementation "
-         "and a Go depth-first road search + flat count oracle judges the implementation directly.",
-    ref='5.2', technique='Coq proof (flood fill = connectivity, road test = path existence) + model/implementation differential + DFS oracle',
-    note="Trusted: Coq kernel, extraction, transcription of bitboard/bits.go and tak/game.go (validated by execution), generators.")
+    text="Coq theorem game_over_correct: for every position of size 3..8 that satisfies the representation invariant of C01 "
+         "(board_ok), has no bit outside the board squares and whose reserves satisfy stones+capstones < 256 per colour, the rules "
+         "(Rules.Outcome over the abstraction abs: road owner / on a double road the player who just moved / full board or a player out of "
+         "pieces -> flat count with the tie-break setting / otherwise undecided) assign exactly one outcome, and GameOver returns "
+         "(decided?, winner), WinDetails returns {over, reason road|flats, winner, the rules' two flat counts} and ResultFromGame the "
+         "corresponding result text (panic exactly when undecided). Ingredients, all proved: the bitboard flood fill computes exactly the "
+         "orthogonal connectivity classes (groups_spec), the two-opposite-edge-masks test holds iff an orthogonally connected edge-to-edge "
+         "path exists (road_bits_iff, every size, every set of squares), road bits = flat/capstone tops of the colour (road_test), "
+         "popcount = number of flat tops (count_flats), White|Black = Mask iff every square occupied, byte-sum reserve test = out of pieces. "
+         "Non-vacuity: a reachable 5x5 position with a bending road through a capstone, a 3x3 double road, a full-board tie under both "
+         "tie-break settings. The extra invariant clauses are shown inductive along moves (inv_step). The model of "
+         "GameOver/WinDetails/ResultFromGame is run against the implementation and a Go depth-first road search + flat count oracle "
+         "judges the implementation directly.",
+    ref='5.2', technique='Coq proof (end-of-game refinement theorem against the rules specification) + model/implementation differential + DFS oracle',
+    note="Trusted: Coq kernel, extraction, transcription of bitboard/bits.go and tak/game.go (validated by execution), generators. "
+         "Hypotheses that are exact: with stones+capstones = 256 (e.g. Config{Pieces:250, Capstones:6}) the byte sum wraps and the engine "
+         "declares the empty board finished (Example reserves_wrap); stray bits outside the board can fake a road (Examples stray_bit, "
+         "stray_no_road) - neither is reachable from New/FromSquares with the standard piece counts.")
